@@ -2,6 +2,7 @@
 import HtpModel.Lemmas.Normalize
 import HtpModel.Pinned.Eq
 import HtpModel.Lemmas.CFunsNormalize
+import HtpModel.Lemmas.CFunsUtf8
 
 namespace Htp.C12
 open Htp.Decode Htp.Gen
@@ -101,5 +102,17 @@ theorem C12_translated_normalize_no_dot_segments (d : Bytes) (h1 : d.length < 92
 
 example : (Htp.Gen.C.htp_normalize_uri_path_inplace 20 (Htp.CSem.memOf (b!"/a/../b")) 7).map
     (fun r => r.2.s__mem.take r.2.s__len.toNat) = some (Htp.CSem.memOf (b!"/b")) := by decide +kernel
+
+/-- **C12 (one step of the UTF-8 automaton, the code itself)**: htp_utf8_decode_allow_overlong translated from the current source - two reads
+    of the file-scope tables (tabulated and pinned by `C12_decoder_tables_pinned`), the bit operations, the 32-bit wraps - returns the model's
+    `utf8Dfa` for every byte, every automaton state 0..8 and every code point; the new state is again in 0..8, so both table reads stay inside
+    the 400-entry tables along any byte sequence. The bound is exact: with state 9 the second read is outside the table
+    (`utf8_step_state9_undefined`). -/
+theorem C12_translated_utf8_step (fuel state codep : Nat) (byte : UInt8) (hs : state ≤ 8) :
+    (Htp.Gen.C.htp_utf8_decode_allow_overlong fuel state codep byte.toNat).map (fun r => (r.1, r.2.state, r.2.codep))
+      = some (((utf8Dfa state codep byte).1 : Int), ((utf8Dfa state codep byte).1 : Int), ((utf8Dfa state codep byte).2 : Int)) ∧
+    (utf8Dfa state codep byte).1 ≤ 8 := by
+  refine ⟨?_, Htp.CFuns.utf8_step_state_le state codep byte hs⟩
+  rw [Htp.CFuns.utf8_step_eq_any_codep fuel state codep byte hs]; rfl
 
 end Htp.C12
